@@ -104,7 +104,8 @@ AttrNames == {"allow", "deprecated", "compress", "slicedFormat", "oneway", "unkn
 OpTargets == {"operation", "operation_streamparam", "operation_ret", "operation_retstream", "operation_rettuple", "operation_rettuplestream"}
 Targets == {"file", "module", "struct", "field", "interface", "parameter", "retmember", "enum", "enumerator",
             "custom", "alias", "typeref", "base", "underlying", "enfield", "cstruct", "cenum"} \cup OpTargets
-ArgShapes == {"none", "valid1", "valid2", "invalid", "casewrong", "empty_parens"}
+\* "dupfile": the argument DuplicateFile - a lint of the command line only, no valid argument of the allow attribute
+ArgShapes == {"none", "valid1", "valid2", "invalid", "casewrong", "empty_parens", "dupfile"}
 AttrItems == [a : AttrNames, on : Targets, args : ArgShapes, twice : BOOLEAN]
 IsTypeRefTarget(t) == t \in {"typeref", "base", "underlying"}
 LegalOn(a, t) ==
@@ -120,7 +121,7 @@ CountOk(a, s) == CASE a = "allow" -> NArgs(s) >= 1
                    [] a = "oneway" -> NArgs(s) = 0
                    [] OTHER -> TRUE
 \* deprecated takes any text; the others have closed argument sets
-ArgsOk(a, s) == a \in {"deprecated", "unknown", "foreign"} \/ s \notin {"invalid", "casewrong"}
+ArgsOk(a, s) == a \in {"deprecated", "unknown", "foreign"} \/ s \notin {"invalid", "casewrong", "dupfile"}
 Repeatable(a) == a \in {"allow", "unknown", "foreign"}
 VAttrs(it) ==
   IF it.a = "foreign" THEN {}                                                      \* foreign-prefixed directives are kept verbatim
